@@ -57,6 +57,56 @@ particular function):
                                          `Self { value, is_some }` -> (v, c), `.value` / `.is_some` -> fst / snd; the functions of
                                          `impl<T> ConstCtOption<T>` are translated from their source as polymorphic definitions
                                          ({T : Type}) and T is instantiated at each call from the argument's type
+Added for the limb-division loops, the Montgomery reduction and the hex nibble decoder (again constructs of the language /
+type names of the crate only):
+  fn f<const L: usize>(..)               a free function generic over ONE const usize: Definition g (L : nat) ..; inside it L plays
+                                         the role LIMBS plays in `impl<const LIMBS: usize> Uint<LIMBS>`: Uint<L>, [Limb; L],
+                                         `[Limb::ZERO; L]`, `Uint::<L>::new`, L as a value (Z.of_nat L), and it is passed as the
+                                         limb count to the Uint<LIMBS> methods and to other generic free functions it calls
+                                         (a generic free function called from a context without a const generic is an error)
+  NonZero<T>, Odd<T>                     struct NonZero<T>(T) / Odd<T>(T): erased newtypes, `.0` is the identity and has type T
+  x[i] op= e, x.limbs[i].0 op= e         compound assignment to a place: place = place op e (the index expression is pure)
+  `let mut x;`                           declared, assigned later (Rust checks that it is assigned before it is read): until then
+                                         the variable holds the default value 0 / false / nil of its type, which is the type of the
+                                         first assignment (the variable is part of the state of every loop that assigns it)
+  fn f(.., x: &mut [Limb], ..) -> T      `&mut` parameters AND a value: the Coq function returns (value, final contents of the
+                                         `&mut` parameters in parameter order)
+  let p = f(.., &mut x, &mut y.limbs, ..);  /  f(.., &mut x, ..);
+                                         a call of a function with `&mut` parameters may stand alone as the right-hand side of a
+                                         `let` or as a statement: let '(p, v_x, v_y) := (g_f .. v_x v_y ..) in -- the borrowed
+                                         variables (plain `x`, or `x.limbs` of a Uint) are rebound to the final contents; `&mut`
+                                         anywhere else is an error; such variables count as assigned for loop / if states
+  &x.limbs : &[Limb; N] passed for &[Limb]   unsized coercion, both are lists
+  i8 i16 i32 i64 i128                    signed machine integers are the Z in [-2^(w-1), 2^(w-1)); + - * wrap to two's complement:
+                                         sadd_ w a b = swrap_ w (a + b), ssub_, smul_, unary minus sneg_ w a = swrap_ w (-a) with
+                                         swrap_ w x = (x + 2^(w-1)) mod 2^w - 2^(w-1);  & | ^ are Z.land Z.lor Z.lxor (two's
+                                         complement on negative Z), !a = snot_ a = -a - 1;  a << s = sshl_ w a s = swrap_ w (a * 2^s);
+                                         a >> s is the ARITHMETIC shift shr_ a s = a / 2^s (floor);  comparisons compare the Z;
+                                         / and % on signed values are NOT in the subset; literals `-1`, `0x2fi16`
+  e as iM                                from uN with N < M or from iN with N <= M: e; otherwise swrap_ M e
+  e as uM, e signed                      trunc_ M e = e mod 2^M (sign extension followed by reinterpretation)
+  [u8; 2] (also u16 / u32 / u64, any literal length)   list Z; b[i] -> nth (Z.to_nat i) b 0 of the element type
+Added for the constant-time long division Uint::div_rem and what it calls (bits, the shift ladders, to_nz, expect):
+  `if c { s1; ..; return e; }`           guard at the top level of the function body whose block has statements before the
+                                         `return` (no loop, no nested return): if c then (s1; ..; e) else <rest of the function>
+  `while v > 0 { ..; v -= 1; }`          (decrement LAST, v not assigned elsewhere in the body) Nat.iter (Z.to_nat v) over (v, the
+                                         assigned variables): the body sees v, v - 1, .., 1
+  `while i <= E { ..; i += 1 }`          Nat.iter (Z.to_nat (E + 1 - v_i)): max(0, E + 1 - i) iterations (E is below the maximum of
+                                         its type, else the Rust loop would not terminate: hypothesis of the theorems)
+  `let mut i = 0; while i < E ..`        an untyped counter takes the type of the bound E (u32 for `shift_bits`)
+  (_, b) = rhs;                          `_` as a place of a destructuring assignment: the component is dropped
+  impl ConstCtOption<NonZero<Limb>> / impl<const LIMBS: usize> ConstCtOption<Uint<LIMBS>>
+                                         specialised impl blocks as targets ({"impl": "ConstCtOption<Uint<LIMBS>>", ..}): Self is
+                                         the header read as a type; a method call on a ConstCtOption value resolves to the block
+                                         spelled like the value's type, else to the generic `impl<T> ConstCtOption<T>`; blocks
+                                         whose header mentions LIMBS take (LIMBS : nat) first
+  NonZero(x), Odd(x)                     constructor of the erased newtypes: x
+  &str, "literal"                        panic messages: type unit, value tt
+  a.saturating_sub(b), a.div_ceil(b)     on unsigned primitives: satsub_ a b = if a <? b then 0 else a - b,
+                                         div_ceil_ a b = (a + b - 1) / b
+  (`assert!` / `expect` are dropped like `debug_assert!`: `x.expect(msg)` of a ConstCtOption is translated from its source
+   `assert!(self.is_some.is_true_vartime(), ..); self.value` and returns the carried value; the models return None where the
+   assertion fails and the theorems are stated for the Some case)
 Anything else is a translation error: the function is emitted as an ill-typed stub so that its equality proof fails
 (reported as a broken proof obligation of the properties that rest on it), never silently skipped.
 """
@@ -68,7 +118,7 @@ class TErr(Exception):
 # ------------------------------------------------------------------ lexer
 TOK = re.compile(r'''
    (?P<ws>\s+|//[^\n]*|/\*.*?\*/)
- | (?P<num>0x[0-9a-fA-F_]+|0b[01_]+|[0-9][0-9_]*)(?P<suf>u8|u16|u32|u64|u128|usize|i32|i64)?
+ | (?P<num>0x[0-9a-fA-F_]+|0b[01_]+|[0-9][0-9_]*)(?P<suf>u8|u16|u32|u64|u128|usize|i8|i16|i32|i64|i128)?
  | (?P<id>[A-Za-z_][A-Za-z_0-9]*)
  | (?P<str>"(?:[^"\\]|\\.)*")
  | (?P<op><<=|>>=|\.\.=|<<|>>|<=|>=|==|!=|&&|\|\||\+=|-=|\*=|\|=|&=|\^=|->|=>|::|\.\.|[-+*/%&|^!<>=.,;:(){}\[\]#@?'])
@@ -97,7 +147,7 @@ def lex(src):
 
 # ------------------------------------------------------------------ locating a function
 def find_fn(src, name, impl=None, trait=None):
-    """Returns (params_src, ret_src, body_src). Skips items under #[cfg(target_pointer_width = "32")].
+    """Returns (params_src, ret_src, body_src, generics_src). Skips items under #[cfg(target_pointer_width = "32")].
     `trait`: look in `impl<..> Trait for Impl { .. }` instead of the inherent impl blocks."""
     scope = src
     if impl:
@@ -111,7 +161,7 @@ def find_fn(src, name, impl=None, trait=None):
             while depth and k < len(src):
                 depth += (src[k] == '{') - (src[k] == '}'); k += 1
             scope += src[m.end():k - 1] + '\n'
-    for m in re.finditer(r'(?:pub(?:\([a-z]+\))?\s+)?(?:const\s+)?fn\s+%s\s*\(' % re.escape(name), scope):
+    for m in re.finditer(r'(?:pub(?:\([a-z]+\))?\s+)?(?:const\s+)?fn\s+%s\s*(<[^<>()]*>)?\s*\(' % re.escape(name), scope):
         pre = scope[:m.start()]
         # attributes directly above
         attrs = re.findall(r'#\[[^\]]*\]', pre[pre.rfind('}') + 1 if '}' in pre[-400:] else -400:][-400:])
@@ -129,15 +179,21 @@ def find_fn(src, name, impl=None, trait=None):
         while depth:
             c = scope[k]
             depth += (c == '{') - (c == '}'); k += 1
-        return params, ret, scope[j + 1:k - 1]
+        return params, ret, scope[j + 1:k - 1], m.group(1)
     raise TErr('fn %s not found' % name)
 
 # ------------------------------------------------------------------ types
 ALIAS = {'Word': 'u64', 'WideWord': 'u128', 'usize': 'u64'}
 BITS = {'u8': 8, 'u16': 16, 'u32': 32, 'u64': 64, 'u128': 128, 'choice': 64, 'limb': 64}
+SBITS = {'i8': 8, 'i16': 16, 'i32': 32, 'i64': 64, 'i128': 128}     # signed machine integers: a Z in [-2^(w-1), 2^(w-1))
 STRUCTS = {'Reciprocal': [('divisor_normalized', 'u64'), ('shift', 'u32'), ('reciprocal', 'u64')]}
 
 LISTS = ('arr', 'slice', 'int', 'warr')      # all `list Z` in Coq; they differ in the methods / element type they have
+WRAPPERS = ('NonZero', 'Odd')                # struct NonZero<T>(T), struct Odd<T>(T): erased newtypes, `.0` gives the T
+CG = [None]          # name of the const generic of the free function being translated (`fn f<const L: usize>`); None: LIMBS
+
+def cgname():
+    return CG[0] or 'LIMBS'
 
 def parse_type(s, selfty):
     s = s.strip()
@@ -146,14 +202,18 @@ def parse_type(s, selfty):
         inner = s[1:-1]
         parts = [p for p in split_top(inner) if p.strip()]
         return ('tuple', [parse_type(p, selfty) for p in parts])
-    if re.fullmatch(r'\[\s*Limb\s*;\s*LIMBS\s*\]', s) or re.fullmatch(r'Uint\s*<\s*LIMBS\s*>', s):
+    g = re.escape(cgname())
+    if re.fullmatch(r'\[\s*Limb\s*;\s*%s\s*\]' % g, s) or re.fullmatch(r'Uint\s*<\s*%s\s*>' % g, s):
         return 'arr'
     if re.fullmatch(r'\[\s*Limb\s*\]', s):
         return 'slice'
-    if re.fullmatch(r'\[\s*Word\s*;\s*LIMBS\s*\]', s):
+    if re.fullmatch(r'\[\s*Word\s*;\s*%s\s*\]' % g, s):
         return 'warr'
-    if re.fullmatch(r'Int\s*<\s*LIMBS\s*>', s):
+    if re.fullmatch(r'Int\s*<\s*%s\s*>' % g, s):
         return 'int'
+    m = re.fullmatch(r'(%s)\s*<(.*)>' % '|'.join(WRAPPERS), s, re.S)
+    if m:
+        return ('wrap', m.group(1), parse_type(m.group(2), selfty))
     m = re.fullmatch(r'ConstCtOption\s*<(.*)>', s, re.S)
     if m:
         return ('ctopt', parse_type(m.group(1), selfty))
@@ -166,8 +226,11 @@ def parse_type(s, selfty):
         return 'choice'
     if s == 'Limb':
         return 'limb'
-    if s in BITS or s == 'bool':
+    if s in BITS or s in SBITS or s == 'bool' or s == 'str':
         return s
+    m = re.fullmatch(r'\[\s*(u8|u16|u32|u64)\s*;\s*(\d+)\s*\]', s)
+    if m:
+        return ('fixarr', m.group(1), int(m.group(2)))      # [u8; 2]: a list of that many integers
     if s in STRUCTS:
         return ('struct', s)
     raise TErr('unsupported type %r' % s)
@@ -193,9 +256,29 @@ def coq_type(t):
         return 'list Z'
     if isinstance(t, tuple) and t[0] == 'ctopt':
         return '(%s * Z)' % coq_type(t[1])
+    if isinstance(t, tuple) and t[0] == 'wrap':
+        return coq_type(t[2])
+    if isinstance(t, tuple) and t[0] == 'fixarr':
+        return 'list Z'
     if t == 'T':
         return 'T'
+    if t == 'str':
+        return 'unit'            # &str (panic messages): erased
     return 'bool' if t == 'bool' else 'Z'
+
+def type_owner(t):
+    """the Rust spelling of a type, as it appears in the header of the impl block that holds its methods"""
+    if isinstance(t, tuple) and t[0] == 'wrap': return '%s<%s>' % (t[1], type_owner(t[2]))
+    if isinstance(t, tuple) and t[0] == 'ctopt': return 'ConstCtOption<%s>' % type_owner(t[1])
+    if isinstance(t, tuple) and t[0] == 'tuple': return '(%s)' % ', '.join(type_owner(x) for x in t[1])
+    r = {'choice': 'ConstChoice', 'limb': 'Limb', 'arr': 'Uint<LIMBS>', 'int': 'Int<LIMBS>'}.get(t)
+    if r is None: raise TErr('no impl block for type %s' % (t,))
+    return r
+
+def is_generic(owner):
+    """impl blocks generic over LIMBS (`impl<const LIMBS: usize> Uint<LIMBS>`, `.. ConstCtOption<Uint<LIMBS>>`): their items
+    take (LIMBS : nat) first"""
+    return bool(owner) and 'LIMBS' in owner
 
 def subst_T(t, x):
     if t == 'T': return x
@@ -211,6 +294,12 @@ def dummy(t):
         return 'nil'
     if isinstance(t, tuple) and t[0] == 'ctopt':
         return '(%s, 0)' % dummy(t[1])
+    if isinstance(t, tuple) and t[0] == 'wrap':
+        return dummy(t[2])
+    if isinstance(t, tuple) and t[0] == 'fixarr':
+        return '(repeat 0 %d)' % t[2]
+    if t in SBITS:
+        return '0'
     if t == 'bool':
         return 'false'
     if t in BITS:
@@ -222,8 +311,9 @@ PREC = {'||': 1, '&&': 2, '==': 3, '!=': 3, '<': 3, '<=': 3, '>': 3, '>=': 3, '|
         '+': 8, '-': 8, '*': 9, '/': 9, '%': 9}
 
 class P:
-    def __init__(self, toks):
+    def __init__(self, toks, cg='LIMBS'):
         self.t = toks; self.i = 0
+        self.cg = cg                  # the const generic in scope: the only generic argument a turbofish may carry
     def peek(self, k=0):
         return self.t[self.i + k] if self.i + k < len(self.t) else ('eof',)
     def next(self):
@@ -269,7 +359,8 @@ class P:
             self.next(); return ('un', '-', self.unary())
         if self.isop('&'):
             self.next()
-            if self.isid('mut'): self.next()
+            if self.isid('mut'):
+                self.next(); return ('mutref', self.unary())
             return self.unary()
         if self.isop('*'):
             self.next(); return self.unary()
@@ -284,6 +375,8 @@ class P:
         x = self.next()
         if x[0] == 'num':
             return ('num', x[1], x[2])
+        if x[0] == 'str':
+            return ('strlit',)
         if x == ('op', '['):
             e1 = self.expr(); self.expect(';'); e2 = self.expr(); self.expect(']')
             return ('repeat', e1, e2)
@@ -307,7 +400,7 @@ class P:
                 if self.isop('<'):
                     # turbofish `Uint::<LIMBS>::new`: the only generic argument of the subset is LIMBS itself
                     self.next()
-                    if not self.isid('LIMBS'): raise TErr('generic argument other than LIMBS')
+                    if not self.isid(self.cg): raise TErr('generic argument other than %s' % self.cg)
                     self.next(); self.expect('>'); continue
                 y = self.next()
                 if y[0] != 'id': raise TErr('bad path')
@@ -405,6 +498,9 @@ class P:
                 self.next(); pat = self.pattern(); ty = None
                 if self.isop(':'):
                     self.next(); ty = self.type_src()
+                if self.isop(';'):
+                    # `let mut x;` : declared, assigned later
+                    self.next(); out.append(('let', pat, ty, None)); continue
                 self.expect('='); e = self.expr(); self.expect(';')
                 out.append(('let', pat, ty, e)); continue
             if self.isid('while'):
@@ -445,8 +541,16 @@ class P:
                 if pl[0] == 'pidx':
                     out.append(('iassign', pl[1], pl[2], rhs)); continue
                 raise TErr('unsupported assignment target')
+            if self.peek()[0] == 'op' and self.peek()[1] in ('+=', '-=', '*=', '|=', '&=', '^=', '<<=', '>>='):
+                # compound assignment to a place: x[i] op= e / x.limbs[i].0 op= e  ->  place = place op e
+                op = self.next()[1][:-1]; rhs = self.expr(); self.semi()
+                pl = self.place(e)
+                if pl[0] == 'pidx':
+                    out.append(('iassign', pl[1], pl[2], ('bin', op, e, rhs))); continue
+                raise TErr('unsupported assignment target')
             if self.isop(';'):
-                self.next(); raise TErr('expression statement not supported')
+                # expression statement: only a call of a function with `&mut` parameters is one (checked by the emitter)
+                self.next(); out.append(('expr', e)); continue
             out.append(('ret', e))
         return out
 
@@ -472,6 +576,19 @@ GENERIC = ('Uint<LIMBS>', 'Int<LIMBS>')     # impl blocks generic over LIMBS: th
 OWNERS = ('ConstChoice', 'Limb', 'Reciprocal', 'ConstCtOption<T>') + GENERIC
 CONST_SIGS = {}      # 'Owner::NAME' -> (coq name, type) for the associated constants translated from the source
 MUTS = {}            # key -> names of the `&mut` parameters (their final values are the function's result)
+MUTPOS = {}          # key -> positions of the `&mut` parameters in the parameter list
+MUTRET = {}          # key -> declared return type of a function that has `&mut` parameters AND returns a value
+FREE_GENERIC = set() # keys of the free functions `fn f<const L: usize>(..)`: they take (L : nat) first
+
+def mutrefs(e, acc):
+    """variables borrowed `&mut x` / `&mut x.limbs` inside an expression (they are rebound by the call that takes them)"""
+    if isinstance(e, tuple) and len(e) == 2 and e[0] == 'mutref':
+        b = e[1]
+        if b[0] == 'field' and b[2] == 'limbs': b = b[1]
+        if b[0] == 'var' and b[1] not in acc: acc.append(b[1])
+    elif isinstance(e, (tuple, list)):
+        for x in e: mutrefs(x, acc)
+    return acc
 
 class Emitter:
     def owner(self, o):
@@ -479,13 +596,18 @@ class Emitter:
             if isinstance(self.selfty, tuple) and self.selfty[0] == 'ctopt': return 'ConstCtOption<T>'
             return {'choice': 'ConstChoice', 'limb': 'Limb', 'arr': 'Uint<LIMBS>', 'int': 'Int<LIMBS>'}.get(self.selfty, self.selfname) or ''
         return {'Uint': 'Uint<LIMBS>', 'Int': 'Int<LIMBS>', 'ConstCtOption': 'ConstCtOption<T>'}.get(o, o)
-    def __init__(self, sigs, selfty, selfname, result=None):
+    def __init__(self, sigs, selfty, selfname, result=None, cg=None, ret_muts=None):
         self.sigs = sigs; self.selfty = selfty; self.selfname = selfname; self.const0 = {}
         self.result = result          # type of the value of the function body (with the final values of `&mut` parameters)
         self.ret_t = None             # type of the last tail expression emitted
-        self.generic = selfname in GENERIC
+        self.generic = is_generic(selfname)
+        self.cg = cg or ('LIMBS' if self.generic else None)      # the const generic in scope (a nat in Coq)
+        self.ret_muts = ret_muts      # `&mut` parameters of a function that also returns a value: result = (value, finals..)
+        self.uninit = {}              # `let mut x;` : name -> placeholder id, until the first assignment fixes the type
+        self.uninit_t = {}            # placeholder id -> type
+        self.uid = 0
     def isint(self, t):
-        return t in BITS
+        return t in BITS or t in SBITS
     def unify(self, a, b, what):
         if a == b or a is None or b is None:
             return a or b
@@ -500,8 +622,8 @@ class Emitter:
         if k == 'var':
             if e[1] == 'self':
                 return 'v_self', self.selfty
-            if e[1] == 'LIMBS' and 'LIMBS' not in env and self.generic:
-                return '(Z.of_nat LIMBS)', 'u64'          # the const generic, a usize
+            if self.cg and e[1] == self.cg and self.cg not in env:
+                return '(Z.of_nat %s)' % self.cg, 'u64'          # the const generic, a usize
             if e[1] not in env:
                 raise TErr('unknown variable %s' % e[1])
             if env[e[1]] is None and self.isint(exp) and exp not in ('choice', 'limb'):
@@ -512,18 +634,20 @@ class Emitter:
             owner = self.owner(key[0])
             if owner + '::' + key[1] in CONST_SIGS:
                 cname, cty = CONST_SIGS[owner + '::' + key[1]]
-                return ('(%s LIMBS)' % cname if owner in GENERIC else cname), cty
-            if key[1] == 'LIMBS' and owner in GENERIC and self.generic:
-                return '(Z.of_nat LIMBS)', 'u64'
+                return ('(%s %s)' % (cname, cgname()) if is_generic(owner) else cname), cty
+            if key[1] == 'LIMBS' and is_generic(owner) and self.cg:
+                return '(Z.of_nat %s)' % self.cg, 'u64'
             if key[0] in ('Self', 'Uint') and self.selfty == 'arr' and key[1] in ARR_CONSTS:
                 return ARR_CONSTS[key[1]], 'arr'
-            if key[0] == 'Uint' and self.selfty == 'int' and key[1] in ARR_CONSTS:
-                return ARR_CONSTS[key[1]], 'arr'
+            if key[0] == 'Uint' and (self.selfty == 'int' or (self.selfty is None and self.cg)) and key[1] in ARR_CONSTS:
+                return ARR_CONSTS[key[1]].replace('LIMBS', cgname()), 'arr'
             if key[0] == 'Self' and self.selfty == 'limb' and ('Limb', key[1]) in CONSTS:
                 return CONSTS[('Limb', key[1])]
             if key in CONSTS:
                 return CONSTS[key]
             raise TErr('unknown path %s' % '::'.join(e[1]))
+        if k == 'strlit':
+            return 'tt', 'str'
         if k == 'tuple':
             exps = exp[1] if isinstance(exp, tuple) and exp[0] == 'tuple' and len(exp[1]) == len(e[1]) else [None] * len(e[1])
             parts = [self.emit(x, env, t) for x, t in zip(e[1], exps)]
@@ -539,6 +663,14 @@ class Emitter:
                 return '(b2z %s)' % c, to
             if not (self.isint(t) and self.isint(to)):
                 raise TErr('cast %s -> %s' % (t, to))
+            if to in SBITS:
+                # to a signed type: the value is kept when it fits (widening; unsigned -> strictly wider signed), else it wraps
+                # to two's complement at the target width
+                fits = SBITS[t] <= SBITS[to] if t in SBITS else BITS[t] < SBITS[to]
+                return (c if fits else '(swrap_ %d %s)' % (SBITS[to], c)), to
+            if t in SBITS:
+                # signed -> unsigned: sign-extend / truncate, then reinterpret = the residue mod 2^width
+                return '(trunc_ %d %s)' % (BITS[to], c), to
             if BITS[to] < BITS[t]:
                 return '(trunc_ %d %s)' % (BITS[to], c), to
             return c, to
@@ -549,7 +681,11 @@ class Emitter:
                     return '(negb %s)' % c, 'bool'
                 if t is None:
                     raise TErr('! on untyped literal')
+                if t in SBITS:
+                    return '(snot_ %s)' % c, t
                 return '(not_ %d %s)' % (BITS[t], c), t
+            if e[1] == '-' and t in SBITS:
+                return '(sneg_ %d %s)' % (SBITS[t], c), t
             raise TErr('unary %s' % e[1])
         if k == 'bin':
             op = e[1]
@@ -561,6 +697,9 @@ class Emitter:
                 a, ta = self.emit(e[2], env, exp)
                 b, tb = self.emit(e[3], env, None)
                 if ta is None: raise TErr('shift of untyped literal')
+                if ta in SBITS:
+                    # signed: `<<` wraps to two's complement, `>>` is the arithmetic shift (floor division, as shr_ on a negative Z)
+                    return ('(sshl_ %d %s %s)' % (SBITS[ta], a, b) if op == '<<' else '(shr_ %s %s)' % (a, b)), ta
                 if op == '<<':
                     return '(shl_ %d %s %s)' % (BITS[ta], a, b), ta
                 return '(shr_ %s %s)' % (a, b), ta
@@ -586,25 +725,28 @@ class Emitter:
                 return '(%s %s %s)' % (f, a, b), 'bool'
             if op in ('&', '|', '^'):
                 return '(%s %s %s)' % ({'&': 'Z.land', '|': 'Z.lor', '^': 'Z.lxor'}[op], a, b), t
+            if op in ('+', '-', '*') and t in SBITS:
+                return '(%s %d %s %s)' % ({'+': 'sadd_', '-': 'ssub_', '*': 'smul_'}[op], SBITS[t], a, b), t
             if op in ('+', '-', '*'):
                 return '(%s %d %s %s)' % ({'+': 'add_', '-': 'sub_', '*': 'mul_'}[op], BITS[t], a, b), t
             if op in ('/', '%') and t in BITS:
                 return '(%s %s %s)' % ('div_' if op == '/' else 'rem_', a, b), t      # unsigned; a zero divisor panics in Rust
             raise TErr('operator %s' % op)
         if k == 'repeat':
-            if e[2] != ('var', 'LIMBS'): raise TErr('array length must be LIMBS')
+            if e[2] != ('var', cgname()): raise TErr('array length must be %s' % cgname())
             if e[1][0] == 'num' and e[1][2] is None and exp in (None, 'warr'):
                 # `[0; LIMBS]`: a bare integer literal is not a Limb, this is an array of words
-                return '(repeat %s LIMBS)' % self.emit(e[1], env, 'u64')[0], 'warr'
+                return '(repeat %s %s)' % (self.emit(e[1], env, 'u64')[0], cgname()), 'warr'
             c, t = self.emit(e[1], env, 'limb')
             if t not in ('limb', 'u64'): raise TErr('array of %s' % t)
-            return '(repeat %s LIMBS)' % c, 'arr'
+            return '(repeat %s %s)' % (c, cgname()), 'arr'
         if k == 'index':
             c, t = self.emit(e[1], env, None)
-            if t not in ('arr', 'slice', 'warr'): raise TErr('indexing a %s' % (t,))
+            fix = isinstance(t, tuple) and t[0] == 'fixarr'
+            if t not in ('arr', 'slice', 'warr') and not fix: raise TErr('indexing a %s' % (t,))
             ic, it = self.emit(e[2], env, 'u64')
             if it != 'u64': raise TErr('index of type %s' % (it,))
-            return '(nth (Z.to_nat %s) %s 0)' % (ic, c), ('u64' if t == 'warr' else 'limb')
+            return '(nth (Z.to_nat %s) %s 0)' % (ic, c), (t[1] if fix else 'u64' if t == 'warr' else 'limb')
         if k == 'field':
             c, t = self.emit(e[1], env, None)
             if t == 'arr' and e[2] == 'limbs':
@@ -613,6 +755,8 @@ class Emitter:
                 return c, 'u64'
             if t == 'int' and e[2] == '0':
                 return c, 'arr'                 # struct Int<LIMBS>(Uint<LIMBS>)
+            if isinstance(t, tuple) and t[0] == 'wrap' and e[2] == '0':
+                return c, t[2]                  # struct NonZero<T>(T) / Odd<T>(T)
             if isinstance(t, tuple) and t[0] == 'ctopt' and e[2] in ('value', 'is_some'):
                 return ('(fst %s)' % c, t[1]) if e[2] == 'value' else ('(snd %s)' % c, 'choice')
             if isinstance(t, tuple) and t[0] == 'tuple' and e[2].isdigit():
@@ -657,21 +801,23 @@ class Emitter:
                 c, t = self.emit(e[2][0], env, 'u64')
                 self.unify(t, 'u64', 'newtype constructor')
                 return c, ty
+            if len(path) == 1 and path[0] in WRAPPERS and len(e[2]) == 1:
+                # NonZero(x) / Odd(x): the tuple-struct constructor of an erased newtype
+                want = exp[2] if isinstance(exp, tuple) and exp[0] == 'wrap' and exp[1] == path[0] else None
+                c, t = self.emit(e[2][0], env, want)
+                if t is None: raise TErr('untyped literal in %s(..)' % path[0])
+                return c, ('wrap', path[0], t)
             if len(path) == 2 and path[0] in ('Uint', 'Self') and path[1] == 'new' and len(e[2]) == 1 and (path[0] == 'Uint' or self.selfty == 'arr'):
                 c, t = self.emit(e[2][0], env, 'arr')
                 if t != 'arr': raise TErr('Uint::new of %s' % (t,))
                 return c, 'arr'
-            if len(path) == 1:
-                key = path[0]
-            else:
-                owner = self.owner(path[-2])
-                key = owner + '::' + path[-1] if owner in OWNERS else path[-1]
-            return self.call(key, e[2], env)
+            return self.call(self.callkey(path), e[2], env)
         if k == 'mcall':
             c, t = self.emit(e[1], env, exp if e[2].startswith('wrapping_') else None)
             name = e[2]
             if (self.isint(t) and t not in ('choice', 'limb')) or t is None:
                 if t is None: raise TErr('method %s on untyped literal' % name)
+                if t in SBITS: raise TErr('method %s on the signed type %s' % (name, t))
                 w = BITS[t]
                 if name in ('wrapping_add', 'wrapping_sub', 'wrapping_mul'):
                     b, tb = self.emit(e[3][0], env, t); self.unify(t, tb, name)
@@ -683,6 +829,9 @@ class Emitter:
                     return '(oadd_ %d %s %s)' % (w, c, b), ('tuple', [t, 'bool'])
                 if name == 'leading_zeros':
                     return '(clz_ %d %s)' % (w, c), 'u32'
+                if name in ('saturating_sub', 'div_ceil') and len(e[3]) == 1:
+                    b, tb = self.emit(e[3][0], env, t); self.unify(t, tb, name)
+                    return '(%s %s %s)' % ('satsub_' if name == 'saturating_sub' else 'div_ceil_', c, b), t
                 raise TErr('method %s on %s' % (name, t))
             if t == 'choice':
                 return self.call('ConstChoice::' + name, [('raw', c, t)] + e[3], env)
@@ -694,9 +843,16 @@ class Emitter:
                 return self.call('Int<LIMBS>::' + name, [('raw', c, t)] + e[3], env)
             if t == 'slice' and name == 'len' and not e[3]:
                 return '(Z.of_nat (length %s))' % c, 'u64'      # a usize
+            if isinstance(t, tuple) and t[0] == 'ctopt':
+                # the specialised impl block `impl ConstCtOption<NonZero<Limb>>` / `impl<const LIMBS: usize> ConstCtOption<Uint<LIMBS>>`,
+                # else the generic `impl<T> ConstCtOption<T>`
+                key = type_owner(t) + '::' + name
+                return self.call(key if key in self.sigs else 'ConstCtOption<T>::' + name, [('raw', c, t)] + e[3], env)
             raise TErr('method %s on %s' % (name, t))
         if k == 'raw':
             return e[1], e[2]
+        if k == 'mutref':
+            raise TErr('`&mut` outside the argument list of a call that stands alone in a `let` / statement')
         if k == 'if':
             # if-expression: both branches are blocks ending in an expression of the same type
             cc, ct = self.emit(e[1], env, 'bool')
@@ -710,15 +866,45 @@ class Emitter:
             t = self.unify(ta, tb, 'if branches')
             return '(if %s then %s else %s)' % (cc, a, b), t
         raise TErr('expression kind %s' % k)
-    def call(self, key, args, env):
+    def callkey(self, path):
+        if len(path) == 1:
+            return path[0]
+        owner = self.owner(path[-2])
+        return owner + '::' + path[-1] if owner in OWNERS else path[-1]
+    def is_mut_call(self, e):
+        if e is None or e[0] != 'call': return False
+        if len(e[1]) == 1 and e[1][0] in ('Self', 'ConstChoice', 'Limb'): return False
+        return bool(MUTS.get(self.callkey(e[1])))
+    def mut_call(self, e, env):
+        """`f(.., &mut x, .., &mut y.limbs, ..)` where f has `&mut` parameters -> (coq text of the call, declared return type
+        or None, the variables x, y.. in parameter order: the caller rebinds them to the final contents); None if e is not
+        such a call"""
+        key = self.callkey(e[1])
+        args = list(e[2]); names = []
+        for k in MUTPOS[key]:
+            if k >= len(args): raise TErr('arity of %s' % key)
+            a = args[k]
+            if a[0] != 'mutref': raise TErr('argument %d of %s must be `&mut x` / `&mut x.limbs`' % (k, key))
+            b = a[1]
+            if b[0] == 'field' and b[2] == 'limbs' and b[1][0] == 'var' and env.get(b[1][1]) == 'arr': b = b[1]
+            if not (b[0] == 'var' and env.get(b[1]) in ('arr', 'slice')):
+                raise TErr('argument %d of %s must be `&mut x` / `&mut x.limbs`' % (k, key))
+            if b[1] in names: raise TErr('the same variable borrowed twice')
+            names.append(b[1]); args[k] = ('raw', 'v_' + b[1], 'slice')
+        c, _ = self.call(key, args, env, mut_ok=True)
+        return c, MUTRET.get(key), names
+    def call(self, key, args, env, mut_ok=False):
         if key not in self.sigs:
             raise TErr('call to untranslated function %s' % key)
-        if MUTS.get(key):
+        if MUTS.get(key) and not mut_ok:
             raise TErr('call of %s (it has &mut parameters) in expression position' % key)
         cname, ptys, rty = self.sigs[key]
         if len(ptys) != len(args):
             raise TErr('arity of %s' % key)
-        parts = ['LIMBS'] if key.split('::')[0] in GENERIC else []
+        parts = [cgname()] if is_generic(key.rsplit('::', 1)[0]) and '::' in key else []
+        if key in FREE_GENERIC:
+            if not self.cg: raise TErr('call of the generic function %s: the const generic cannot be inferred' % key)
+            parts = [self.cg]
         tv = None                      # instance of the type parameter T of `impl<T> ConstCtOption<T>`
         for a, pt in zip(args, ptys):
             if pt == 'T':
@@ -727,6 +913,7 @@ class Emitter:
                 tv = self.unify(tv, t, 'type parameter of ' + key); parts.append(c); continue
             if tv is not None: pt = subst_T(pt, tv)
             c, t = self.emit(a, env, pt)
+            if pt == 'slice' and t == 'arr': t = 'slice'       # &[Limb; N] coerces to &[Limb]
             if isinstance(pt, tuple) and pt[0] == 'ctopt' and pt[1] == 'T' and isinstance(t, tuple) and t[0] == 'ctopt':
                 tv = self.unify(tv, t[1], 'type parameter of ' + key); pt = t
             self.unify(t, pt, 'argument of ' + key); parts.append(c)
@@ -756,9 +943,12 @@ class Emitter:
                     else:
                         for q in p[1]: names(q)
                 names(s[1])
+            if s[0] in ('let', 'expr'):
+                for n in mutrefs(s[3] if s[0] == 'let' else s[1], []): hit(n)
             if s[0] in ('assign', 'iassign'): hit(s[1])
             if s[0] == 'tassign':
-                for pl in s[1]: hit(pl[1])
+                for pl in s[1]:
+                    if pl != ('pvar', '_'): hit(pl[1])
             if s[0] == 'while': self.assigned(s[2], acc, local)
             if s[0] == 'if':
                 self.assigned(s[2], acc, local); self.assigned(s[3] or [], acc, local)
@@ -771,6 +961,8 @@ class Emitter:
         c, t2 = self.emit(rhs, env, t)
         if t is None and t2 is None: t2 = 'u64'      # a counter never used at another type: usize
         env[name] = self.unify(env[name], t2, 'assignment')
+        if name in self.uninit and env[name] is not None:
+            self.uninit_t[self.uninit.pop(name)] = env[name]
         self.const0[name] = False
         return 'let v_%s := %s in\n  ' % (name, c)
     def set_idx(self, name, ix, rhs, env):
@@ -788,11 +980,11 @@ class Emitter:
         return ', '.join('v_' + v for v in vs)
     def counted(self, c, b, env):
         """`while i < BOUND { ..; i += 1 }` with i not assigned elsewhere in the body -> (i, coq iteration count) or None"""
-        if not (c[0] == 'bin' and c[1] == '<' and c[2][0] == 'var' and b and
+        if not (c[0] == 'bin' and c[1] in ('<', '<=') and c[2][0] == 'var' and b and
                 b[-1] == ('assign', c[2][1], '+', ('num', 1, None)) and c[2][1] not in self.assigned(b[:-1], [])):
             return None
         iv = c[2][1]; bound = c[3]
-        if self.const0.get(iv):
+        if self.const0.get(iv) and c[1] == '<':
             if bound == ('var', 'LIMBS') and 'LIMBS' not in env:
                 return iv, 'LIMBS'
             if bound[0] == 'mcall' and bound[2] == 'len' and not bound[3] and bound[1][0] == 'var' and env.get(bound[1][1]) == 'slice':
@@ -801,10 +993,14 @@ class Emitter:
         if iv not in env: return None
         asg = self.assigned(b, [])
         if any(v in asg for v in fv(bound, set())): return None
-        t = env[iv] or 'u64'
-        bc, bt = self.emit(bound, env, t)
+        bc, bt = self.emit(bound, env, env[iv])
+        t = env[iv] or bt or 'u64'             # `let mut i = 0;` : the counter has the type of the bound
+        if bt is None: bc, bt = self.emit(bound, env, t)
         self.unify(bt, t, 'loop bound')
         env[iv] = t
+        if c[1] == '<=':
+            # `while i <= E { ..; i += 1 }` : max(0, E + 1 - i) iterations (E below the maximum of the type: hypothesis of the theorems)
+            return iv, '(Z.to_nat (%s + 1 - v_%s))' % (bc, iv)
         return iv, '(Z.to_nat (%s - v_%s))' % (bc, iv)
     def stmts(self, ss, env, rty, tail, top=False):
         """-> coq text; `tail` is the text that closes a non-returning block (the state tuple of a loop body / if branch);
@@ -813,7 +1009,35 @@ class Emitter:
         i = 0
         while i < len(ss):
             s = ss[i]
-            if s[0] == 'let':
+            if s[0] == 'let' and s[3] is None:
+                # `let mut x;` : the variable is assigned before it is read (Rust checks this); until then it holds the default
+                # value of its type (the type is that of the first assignment)
+                if s[1][0] != 'id': raise TErr('`let` without a value needs a plain name')
+                name = s[1][1]
+                if s[2]:
+                    env[name] = parse_type(s[2], self.selfty)
+                    out += 'let v_%s := %s in\n  ' % (name, dummy(env[name]))
+                else:
+                    uid = self.uid; self.uid += 1
+                    env[name] = None; self.uninit[name] = uid
+                    out += 'let v_%s := \x00U%d\x00 in\n  ' % (name, uid)
+                self.const0[name] = False
+            elif s[0] in ('let', 'expr') and self.is_mut_call(s[3] if s[0] == 'let' else s[1]):
+                # `let pat = f(.., &mut x, ..);` / `f(.., &mut x, ..);` : x is rebound to its final contents
+                c, rt, names = self.mut_call(s[3] if s[0] == 'let' else s[1], env)
+                for n in names: self.const0[n] = False
+                if s[0] == 'let':
+                    if rt is None: raise TErr('`let` of a unit call')
+                    ety = parse_type(s[2], self.selfty) if s[2] else None
+                    if ety: self.unify(rt, ety, 'let')
+                    p = self.pat(s[1], rt, env).lstrip("'")
+                    out += "let '(%s, %s) := %s in\n  " % (p, self.tup(names), c)
+                else:
+                    if rt is not None: raise TErr('value of a call dropped')
+                    out += "let %s := %s in\n  " % ("'(%s)" % self.tup(names) if len(names) > 1 else self.tup(names), c)
+            elif s[0] == 'expr':
+                raise TErr('expression statement not supported')
+            elif s[0] == 'let':
                 ety = parse_type(s[2], self.selfty) if s[2] else None
                 c, t = self.emit(s[3], env, ety)
                 if t is None:
@@ -835,6 +1059,7 @@ class Emitter:
                     raise TErr('destructuring assignment of %s' % (t,))
                 out += "let '(%s) := %s in\n  " % (', '.join('tmp_%d' % k for k in range(len(s[1]))), c)
                 for k, pl in enumerate(s[1]):
+                    if pl == ('pvar', '_'): continue             # `(_, b) = rhs;` : the component is dropped
                     r = ('raw', 'tmp_%d' % k, t[1][k])
                     out += self.set_var(pl[1], r, env) if pl[0] == 'pvar' else self.set_idx(pl[1], pl[2], r, env)
             elif s[0] == 'if' and s[2] == [('panic',)] and s[3] is None:
@@ -851,8 +1076,18 @@ class Emitter:
                 if ct != 'bool': raise TErr('if condition of type %s' % (ct,))
                 rc, rt = self.emit(s[2][0][1], env, rty)
                 self.unify(rt, rty, 'return value')
+                if self.ret_muts: rc = '(%s, %s)' % (rc, self.tup(self.ret_muts))
                 rest = self.stmts(ss[i + 1:], env, rty, tail, top)
                 return out + 'if %s then %s else\n  %s' % (cc, rc, rest)
+            elif s[0] == 'if' and len(s[2]) > 1 and s[2][-1][0] == 'return' and s[3] is None and \
+                    not any(x[0] in ('return', 'while') for x in s[2][:-1]):
+                # `if c { s1; ..; return e; }` guard at the top level of the function body
+                if not top or rty is None: raise TErr('return outside the function body block')
+                cc, ct = self.emit(s[1], env, 'bool')
+                if ct != 'bool': raise TErr('if condition of type %s' % (ct,))
+                inner = self.stmts(s[2][:-1] + [('ret', s[2][-1][1])], dict(env), rty, None, top)
+                rest = self.stmts(ss[i + 1:], env, rty, tail, top)
+                return out + 'if %s then (%s) else\n  %s' % (cc, inner, rest)
             elif s[0] == 'return':
                 raise TErr('return outside an `if c { return e; }` guard')
             elif s[0] == 'if':
@@ -903,6 +1138,18 @@ class Emitter:
                     body = self.stmts(b, env2, None, '(%s)' % tup)
                     for v in vs: self.const0[v] = False
                     out += "let '(%s) := Nat.iter (Z.to_nat v_%s) (fun st => let '(%s) := st in\n  %s) (%s) in\n  " % (tup, iv, tup, body, tup)
+                elif c[0] == 'bin' and c[1] == '>' and c[2][0] == 'var' and c[3] == ('num', 0, None) and b and \
+                        b[-1] == ('assign', c[2][1], '-', ('num', 1, None)) and c[2][1] not in self.assigned(b[:-1], []):
+                    # `while v > 0 { ..; v -= 1; }` : v iterations, the body sees v, v - 1, .., 1
+                    iv = c[2][1]
+                    if iv not in env: raise TErr('unknown loop variable %s' % iv)
+                    vs = [iv] + [v for v in self.assigned(b[:-1], []) if v in env and v != iv]
+                    tup = self.tup(vs)
+                    env2 = dict(env)
+                    body = self.stmts(b, env2, None, '(%s)' % tup)
+                    for v in vs:
+                        env[v] = env2[v]; self.const0[v] = False
+                    out += "let '(%s) := Nat.iter (Z.to_nat v_%s) (fun st => let '(%s) := st in\n  %s) (%s) in\n  " % (tup, iv, tup, body, tup)
                 else:
                     raise TErr('unsupported while loop shape')
             elif s[0] == 'ret':
@@ -910,6 +1157,7 @@ class Emitter:
                 c, t = self.emit(s[1], env, rty)
                 if rty is not None: self.unify(t, rty, 'return value')
                 self.ret_t = t
+                if top and self.ret_muts: c = '(%s, %s)' % (c, self.tup(self.ret_muts))
                 return out + c
             else:
                 raise TErr('statement kind %s' % s[0])
@@ -920,10 +1168,22 @@ class Emitter:
 SELFTY = {'ConstChoice': 'choice', 'Reciprocal': ('struct', 'Reciprocal'), 'Limb': 'limb', 'Uint<LIMBS>': 'arr', 'Int<LIMBS>': 'int',
           'ConstCtOption<T>': ('ctopt', 'T')}
 
+def impl_selfty(impl):
+    """the type of Self in `impl .. <impl> { .. }`: the table above, else the impl header read as a type
+    (`ConstCtOption<NonZero<Limb>>`, `ConstCtOption<Uint<LIMBS>>`)"""
+    if impl is None or impl in SELFTY: return SELFTY.get(impl)
+    return parse_type(impl, None)
+
 def translate(src, name, cname, impl, sigs, trait=None):
     """-> parameters, declared return type, body text, type of Self, names of the `&mut` parameters"""
-    selfty = SELFTY.get(impl)
-    params, ret, body = find_fn(src, name, impl, trait)
+    selfty = impl_selfty(impl)
+    params, ret, body, generics = find_fn(src, name, impl, trait)
+    cg = None
+    if generics:
+        m = re.fullmatch(r'<\s*const\s+(\w+)\s*:\s*usize\s*>', generics)
+        if not m or impl: raise TErr('unsupported generic parameters %s' % generics)
+        cg = m.group(1)
+    CG[0] = cg
     ps = []; muts = []
     for p in split_top(params):
         p = p.strip()
@@ -941,9 +1201,7 @@ def translate(src, name, cname, impl, sigs, trait=None):
             muts.append(m.group(1))
         ps.append((m.group(1), ty))
     rty = parse_type(ret, selfty) if ret else ('tuple', [])
-    if muts and rty != ('tuple', []):
-        raise TErr('&mut parameters together with a return value')
-    return ps, rty, body, selfty, muts
+    return ps, rty, body, selfty, muts, cg
 
 def find_const(src, name, impl):
     """`const NAME: T = expr;` inside the inherent impl blocks of `impl` -> (type text, expression text)"""
@@ -977,37 +1235,55 @@ def gen_group(repo, group, sigs):
                 tsrc, esrc = find_const(src, f['const'], f['impl'])
                 cty = parse_type(tsrc, SELFTY.get(f['impl']))
                 CONST_SIGS[key] = (f['coq'], cty)
-                parsed.append((f, key, [], cty, esrc, SELFTY.get(f['impl']), None))
+                parsed.append((f, key, [], cty, esrc, SELFTY.get(f['impl']), None, None))
             except TErr as e:
-                parsed.append((f, key, None, None, None, None, str(e)))
+                parsed.append((f, key, None, None, None, None, str(e), None))
             continue
         key = (f['impl'] + '::' + f['name']) if f.get('impl') else f['name']
         try:
-            ps, rty, body, selfty, muts = translate(src, f['name'], f['coq'], f.get('impl'), sigs, f.get('trait'))
+            CG[0] = None
+            ps, rty, body, selfty, muts, cg = translate(src, f['name'], f['coq'], f.get('impl'), sigs, f.get('trait'))
             if muts:
                 MUTS[key] = muts
+                MUTPOS[key] = [k for k, (n, _) in enumerate(ps) if n in muts]
                 pt = dict(ps)
-                rty = pt[muts[0]] if len(muts) == 1 else ('tuple', [pt[m] for m in muts])
+                if rty != ('tuple', []):
+                    # a value AND `&mut` parameters: (value, final contents of the `&mut` parameters in parameter order)
+                    MUTRET[key] = rty
+                    rty = ('tuple', [rty] + [pt[m] for m in muts])
+                else:
+                    rty = pt[muts[0]] if len(muts) == 1 else ('tuple', [pt[m] for m in muts])
+            if cg: FREE_GENERIC.add(key)
             sigs[key] = (f['coq'], [t for _, t in ps], rty)
-            parsed.append((f, key, ps, rty, body, selfty, None))
+            parsed.append((f, key, ps, rty, body, selfty, None, cg))
         except TErr as e:
-            parsed.append((f, key, None, None, None, None, str(e)))
-    for f, key, ps, rty, body, selfty, err in parsed:
+            parsed.append((f, key, None, None, None, None, str(e), None))
+        finally:
+            CG[0] = None
+    for f, key, ps, rty, body, selfty, err, cg in parsed:
+        CG[0] = cg
         if err is None:
             try:
-                em = Emitter(sigs, selfty, f.get('impl'), rty)
+                em = Emitter(sigs, selfty, f.get('impl'), rty, cg, MUTS.get(key) if key in MUTRET else None)
                 env = {n: t for n, t in ps if n != 'self'}
                 toks = lex(body)
-                ss = P(toks).block()
-                if key in MUTS:
+                ss = P(toks, cgname()).block()
+                if key in MUTRET:
+                    code = em.stmts(ss, env, MUTRET[key], '', top=True)
+                elif key in MUTS:
                     # a unit function that writes through `&mut` parameters: its value is their final contents
                     tl = em.tup(MUTS[key])
                     code = em.stmts(ss, env, None, '(%s)' % tl if len(MUTS[key]) > 1 else tl, top=True)
                 else:
                     code = em.stmts(ss, env, rty, '', top=True)
+                for uid in range(em.uid):
+                    if uid not in em.uninit_t: raise TErr('`let` without a value: the variable is never assigned a typed value')
+                    code = code.replace('\x00U%d\x00' % uid, dummy(em.uninit_t[uid]))
                 args = ' '.join('(v_%s : %s)' % (n, coq_type(t)) for n, t in ps)
-                if f.get('impl') in GENERIC:
+                if is_generic(f.get('impl')):
                     args = '(LIMBS : nat) ' + args
+                if cg:
+                    args = '(%s : nat) ' % cg + args
                 if f.get('impl') == 'ConstCtOption<T>':
                     args = '{T : Type} ' + args
                 if 'const' in f:
@@ -1023,6 +1299,7 @@ def gen_group(repo, group, sigs):
                 err = 'translator exception %r' % (e,)
         report.append((key, 'FAILED: ' + err))
         bodies.append('(* %s :: %s  NOT TRANSLATED: %s *)\nDefinition %s : unit := tt.\n' % (f['src'], key, err.replace('*)', '* )'), f['coq']))
+    CG[0] = None
     head = '(** GENERATED by tools/rs2v.py from %s -- do not edit; regenerated on every ./check run. *)\n' % ', '.join(sorted(set(f['src'] for f in group['fns'])))
     head += 'From CB Require Import Model.SrcPrelude%s.\nOpen Scope Z_scope.\n\n' % ''.join(' Src.' + r for r in group.get('requires', []))
     return head + '\n'.join(bodies), report
